@@ -24,12 +24,27 @@ fn lx(text: &str, kind: SyntaxKind) -> Lexeme {
     Lexeme { text: text.to_string(), kind, line: false, last_only: false, lex_error: false }
 }
 
-fn non_trivia(text: &str) -> Vec<(SyntaxKind, String)> {
-    let lexed = LexedStr::new(text);
-    (0..lexed.len())
-        .filter(|i| !lexed.kind(*i).is_trivia())
-        .map(|i| (lexed.kind(i), lexed.text(i).to_string()))
-        .collect()
+/// Marker that starts the error of a derivation during which the *subject* panicked: the
+/// text after it is the probe.  Such a probe is a witness for the checks, not a machinery
+/// error (see `props::c01::tok_space`).
+pub const SUBJECT_PANIC: &str = "subject panicked on probe: ";
+
+pub fn subject_panic_probe(err: &str) -> Option<&str> {
+    err.strip_prefix(SUBJECT_PANIC)
+}
+
+/// All tokens of `text` and whether lexing reported no error; a panic of the lexer is an `Err`.
+fn lex_all(text: &str) -> Result<(Vec<(SyntaxKind, String)>, bool), String> {
+    crate::core::catch(|| {
+        let lexed = LexedStr::new(text);
+        let toks = (0..lexed.len()).map(|i| (lexed.kind(i), lexed.text(i).to_string())).collect();
+        (toks, lexed.errors_is_empty())
+    })
+    .map_err(|_| format!("{}{}", SUBJECT_PANIC, text))
+}
+
+fn non_trivia(text: &str) -> Result<Vec<(SyntaxKind, String)>, String> {
+    Ok(lex_all(text)?.0.into_iter().filter(|(k, _)| !k.is_trivia()).collect())
 }
 
 fn kind_name(k: SyntaxKind) -> String {
@@ -87,7 +102,7 @@ pub fn derive(with_var: bool) -> Result<TokAlphabet, String> {
                 Some(c) => {
                     let cand = lx(&c.to_string(), k);
                     // `#` alone is lexed as an invalid identifier, never as POUND
-                    if non_trivia(&cand.text) == vec![(k, cand.text.clone())] {
+                    if non_trivia(&cand.text)? == vec![(k, cand.text.clone())] {
                         lexemes.push(cand);
                     } else {
                         unproducible.push(k);
@@ -153,15 +168,15 @@ pub fn derive(with_var: bool) -> Result<TokAlphabet, String> {
     for l in &lexemes {
         // the version header is only well-formed when followed by white space or `;`
         let probe = if l.kind == SyntaxKind::VERSION_STRING { format!("{} ", l.text) } else { l.text.clone() };
-        let lexed = LexedStr::new(&probe);
-        let all: Vec<(SyntaxKind, String)> = (0..lexed.len())
-            .map(|i| (lexed.kind(i), lexed.text(i).to_string()))
+        let (toks, errors_is_empty) = lex_all(&probe)?;
+        let all: Vec<(SyntaxKind, String)> = toks
+            .into_iter()
             .filter(|(k, _)| !(l.kind == SyntaxKind::VERSION_STRING && *k == SyntaxKind::WHITESPACE))
             .collect();
         if all != vec![(l.kind, l.text.clone())] {
             return Err(format!("alphabet self-check: lexeme {:?} expected kind {:?}, lexer gives {:?}", l.text, l.kind, all));
         }
-        if l.lex_error == lexed.errors_is_empty() {
+        if l.lex_error == errors_is_empty {
             return Err(format!("alphabet self-check: lexeme {:?}: lexical error expectation {} is wrong", l.text, l.lex_error));
         }
     }
@@ -176,7 +191,7 @@ pub fn derive(with_var: bool) -> Result<TokAlphabet, String> {
                 continue;
             }
             let joined = format!("{}{}", a.text, b.text);
-            let got = non_trivia(&joined);
+            let got = non_trivia(&joined)?;
             let want: Vec<(SyntaxKind, String)> = [a, b]
                 .iter()
                 .filter(|l| !l.kind.is_trivia())
